@@ -54,7 +54,8 @@ type caseT struct {
 	Batch int `json:"commit_list_page,omitempty"`
 }
 
-var paths = []string{"f0", "d/f1", "d/f2", "d/e/f3", "f4 x", "ü/f5"}
+// dot-files and dot-directories early in the list (the first n paths are used), together with their dot-less twins
+var paths = []string{"f0", ".env", "d/f1", ".cfg/app.yaml", "env", "d/e/f3", "f4 x", "ü/f5", "cfg/app.yaml"}
 
 func content(p, v int) []byte { return []byte(fmt.Sprintf("content of %s version %d", paths[p], v)) }
 
